@@ -63,6 +63,24 @@ func (g *Global) verifyFunc(key string) (res *FuncResult) {
 		tr.assume(st, tr.evalBool(env, rq.Expr))
 	}
 	tr.specMode--
+	// case split (contract clause "case"): the conditions are evaluated at entry; they must be exhaustive, and an obligation
+	// that no solver decides as a whole is retried under each condition separately (see discharge)
+	if len(fc.Cases) > 0 {
+		var cts []string
+		tr.specMode++
+		var raw []string
+		for _, c := range fc.Cases {
+			raw = append(raw, tr.evalBool(env, c.Expr))
+		}
+		tr.specMode--
+		for _, t := range raw {
+			sym := tr.freshSym("case", true)
+			tr.sc.fact(sEq(sym, t))
+			cts = append(cts, sym)
+		}
+		tr.oblige(st, "cases", "exhaustive", nil, sOr(cts...), "the case conditions of the contract are exhaustive")
+		tr.sc.caseTerms = cts
+	}
 	tr.oldState = st.clone()
 	rets := tr.execBody(fr, st)
 	for _, r := range rets {
